@@ -44,14 +44,16 @@ def gen(rng, depth):
     if k < 0.86:
         return [gen(rng, depth - 1), ("\n\n", "sep"), gen(rng, depth - 1)]
     if k < 0.90:
-        # two or three adjacent side-effect blocks, then whitespace, then an operand: the blocks have
-        # no operand of their own, so the whitespace is plain layout (not the list operator)
+        # two or three adjacent side-effect blocks, then whitespace, then an operand, all inside a group:
+        # at the start of a group the blocks have no operand of their own, so the whitespace is plain layout
+        # (after an operand - e.g. as a later item of a space list - the blocks would attach to it and the
+        # whitespace would be the list operator, which no rewrite may remove)
         out = []
         for j in range(rng.randint(2, 3)):
             if j and rng.random() < 0.4:
                 out.append((" ", "ws"))
             out.append([("[", "open"), gen(rng, depth - 2), ("]", "close")])
-        return out + [(" ", "ws"), gen(rng, depth - 1)]
+        return [("(", "open")] + out + [(" ", "ws"), gen(rng, depth - 1), (")", "close")]
     if k < 0.96:
         # nested expression, possibly with a multi-line body, applied
         body = [gen(rng, depth - 2)]
